@@ -40,8 +40,11 @@ def insertNat (x : Nat) : List Nat → List Nat
 def parseOid (s : String) : Option (Option Nat) :=
   if s == "-" then some none else s.toNat?.map some
 
+/-- locator token: `-` nil, `e` empty but non-nil, elements are ids, `z` = the all-zero hash (never
+    in the index: an id beyond every tree) -/
 def parseLoc (s : String) : Option (List Nat) :=
-  if s == "-" then some [] else (s.splitOn ".").mapM (·.toNat?)
+  if s == "-" ∨ s == "e" then some []
+  else (s.splitOn ".").mapM (fun x => if x == "z" then some 4000000000 else x.toNat?)
 
 def viewDigest (v : View) : String :=
   if v.isEmpty then "0/-/0" else
@@ -160,7 +163,14 @@ def op (s : St) (tok : String) : Option (St × String) :=
       | none => true
     pure (s, chk ok (ids r))
   | [kind, loc, stop, mx] =>
-    if kind == "inv" ∨ kind == "hdr" then do
+    if kind == "reuse" then do
+      let loc ← parseLoc loc
+      let stop ← stop.toNat?
+      let mx ← mx.toNat?
+      match locateBlocks idx v loc stop mx with
+      | none => pure (s, "panic")
+      | some l => pure (s, ids l ++ "/" ++ ids l)
+    else if kind == "inv" ∨ kind == "hdr" then do
       let loc ← parseLoc loc
       let stop ← stop.toNat?
       let mx ← mx.toNat?
